@@ -114,6 +114,26 @@ func runRevScenario(propID string, sc *RevScenario, rules []string, st *Stats, t
 			rr.Nontrivial = fired > 0 && len(rc.ante) > 0
 			rr.ShapeKey = shapeKey(sc, obs)
 		}
+		// C06.R5, checked differentially: the same scenario with every fault on
+		// one certificate's sources replaced by honest answers must leave the
+		// results of all other certificates unchanged
+		if propID == "C06" && si == 0 && len(sc.Worlds) == 1 && sc.Cancel != CancelOnXchg && len(obs.Calls) == 1 && obs.Calls[0].Err == nil && !obs.Calls[0].Panicked && len(sc.Worlds[0].Certs) > 2 && sc.Worlds[0].ChainDefect == ChainOK {
+			j := sc.HealCert
+			twin := ExecRev(sc, alt, -1, &execHooks{healCert: j})
+			st.Bubbles++
+			if twin.HarnessErr == "" && len(twin.Calls) == 1 && twin.Calls[0].Err == nil && !twin.Calls[0].Panicked && len(twin.Calls[0].Results) == len(obs.Calls[0].Results) {
+				rc.anteTrue("C06.R5")
+				for i := range obs.Calls[0].Results {
+					if i == j {
+						continue
+					}
+					a, b := fmtResult(obs.Calls[0].Results[i]), fmtResult(twin.Calls[0].Results[i])
+					if a != b {
+						rc.fail("C06.R5", "interference", fmt.Sprintf("result of certificate %d changed when only the faults on certificate %d's sources were removed:\n  with faults on cert %d:    %s\n  without faults on cert %d: %s", i, j, j, a, j, b))
+					}
+				}
+			}
+		}
 		st.Interleav[completionOrder(obs)] = struct{}{}
 		// schedule independence (C12 positional / C17.R1): canonical results
 		// must be identical under every latency vector when the world is
